@@ -7,7 +7,8 @@ flaky tests (failures are re-run alone once, to rule out port collisions with co
 import json, os, re, shutil, subprocess, sys, time
 
 pid, k = sys.argv[1], sys.argv[2]
-src = '/tmp/seed/%s/_out' % pid
+src = '%s/%s/_out' % (os.environ.get('SEED_SRC', '/tmp/seed'), pid)
+tag = os.environ.get('SEED_TAG', 'm')
 patch = '%s/m%s.diff' % (src, k)
 demo = '%s/m%s_demo.py' % (src, k)
 meta = json.load(open('%s/m%s_meta.json' % (src, k)))
@@ -70,7 +71,7 @@ try:
     print('SEED %s m%s: demo mutated=%d base=%d; suite: %s; beyond-baseline failures=%s => %s'
           % (pid, k, a.returncode, b.returncode, summary['suite_tail'], still, 'CONFIRMED' if ok else 'REJECTED'))
     if ok:
-        dst = '/verif/seeded/%s-m%s' % (pid, k)
+        dst = '/verif/seeded/%s-%s%s' % (pid, tag, k)
         os.makedirs(dst, exist_ok=True)
         shutil.copy(patch, dst + '/patch.diff')
         shutil.copy(demo, dst + '/demo.py')
